@@ -851,6 +851,7 @@ class Normaliser:
             return v
         from sa.props._lib_h_d import _clone
         v = _clone(func)
+        self._struct_constants(v)
         v.body = self._expand_cms(v.body)
         if self.presplit:
             v.body = self._presplit(v.body, v)
@@ -879,6 +880,46 @@ class Normaliser:
         v._parent = getattr(func, "_parent", None)  # type: ignore[attr-defined]
         self._views[id(func)] = v
         return v
+
+    # -- module-level `X = struct.Struct(<constant format>)`: X.pack(..) / X.unpack(..) / X.size are struct.pack(fmt, ..) / struct.unpack(fmt, ..) /
+    #    the constant size
+    def _struct_constants(self, f):
+        import struct as _struct
+        from sa.astx import NotConst, const_eval
+        if not hasattr(self, "_structs"):
+            self._structs = {}
+            for st in self.inl.mod.tree.body:
+                if isinstance(st, ast.Assign) and len(st.targets) == 1 and isinstance(st.targets[0], ast.Name) and isinstance(st.value, ast.Call) \
+                        and dotted(st.value.func) in ("struct.Struct", "Struct") and len(st.value.args) == 1 and not st.value.keywords:
+                    try:
+                        fmt = const_eval(st.value.args[0], {})
+                        _struct.calcsize(fmt)
+                        self._structs[st.targets[0].id] = fmt
+                    except (NotConst, _struct.error, TypeError):
+                        pass
+        structs = self._structs
+        if not structs:
+            return
+        stored = {x.id for x in ast.walk(f) if isinstance(x, ast.Name) and isinstance(x.ctx, ast.Store)}
+
+        class S(ast.NodeTransformer):
+            def visit_Call(self_, node):
+                self_.generic_visit(node)
+                fn = node.func
+                if isinstance(fn, ast.Attribute) and isinstance(fn.value, ast.Name) and fn.value.id in structs and fn.value.id not in stored \
+                        and fn.attr in ("pack", "unpack", "unpack_from") and not node.keywords:
+                    new = ast.Call(func=ast.Attribute(value=ast.Name(id="struct", ctx=ast.Load()), attr=fn.attr, ctx=ast.Load()),
+                                   args=[ast.Constant(value=structs[fn.value.id])] + node.args, keywords=[])
+                    return ast.copy_location(ast.fix_missing_locations(new), node)
+                return node
+
+            def visit_Attribute(self_, node):
+                self_.generic_visit(node)
+                if isinstance(node.value, ast.Name) and node.value.id in structs and node.value.id not in stored and node.attr == "size" and isinstance(node.ctx, ast.Load):
+                    return ast.copy_location(ast.Constant(value=_struct.calcsize(structs[node.value.id])), node)
+                return node
+        S().visit(f)
+        ast.fix_missing_locations(f)
 
     # -- `with self._cm(args) [as x]: body` over a private @contextmanager generator of the class is read as
     #    entry; x = <yielded>; try: body; finally: exit   (the generator's locals renamed)
